@@ -261,9 +261,7 @@ func (f changeFinder) walkSlice(from, to *value) bool {
 		return equal
 	}
 
-	es := diff.Difference(from.Len(), to.Len(), func(i, j int) diff.Result {
-		return compareNodes(from.Children[i], to.Children[j])
-	})
+	es := diffNodes(from, to)
 
 	regions := make([]Region, from.Len())
 	for i, n := range from.Children {
@@ -331,6 +329,53 @@ func (f changeFinder) walkSlice(from, to *value) bool {
 	}
 
 	return equal
+}
+
+// diffNodes computes the edit script that turns the nodes in from into the
+// nodes in to.
+//
+// Nodes that are the same on both sides are paired up first, and nodes are
+// considered modifications of each other only between those. Otherwise, a
+// node that merely resembles the new neighbor of a node that went away is
+// paired with it, and the unchanged node after it is reported as deleted.
+func diffNodes(from, to *value) diff.EditScript {
+	compare := func(i, j int) diff.Result {
+		return compareNodes(from.Children[i], to.Children[j])
+	}
+
+	same := diff.Difference(from.Len(), to.Len(), func(i, j int) diff.Result {
+		return diff.BoolResult(compare(i, j).Equal())
+	})
+
+	var (
+		es     diff.EditScript
+		i, j   int // positions in from and to
+		nx, ny int // number of nodes since the last pair of equal nodes
+	)
+	between := func() {
+		x0, y0 := i-nx, j-ny
+		es = append(es, diff.Difference(nx, ny, func(x, y int) diff.Result {
+			return compare(x0+x, y0+y)
+		})...)
+		nx, ny = 0, 0
+	}
+	for _, e := range same {
+		switch e {
+		case diff.Identity:
+			between()
+			es = append(es, diff.Identity)
+			i++
+			j++
+		case diff.UniqueX:
+			i++
+			nx++
+		case diff.UniqueY:
+			j++
+			ny++
+		}
+	}
+	between()
+	return es
 }
 
 type nodeComparer struct{ diff.Result }
